@@ -84,6 +84,19 @@ Theorem C11_total_smtp_other_cause : forall sc cfg msgs m i,
 Proof. exact smtp_other_cause. Qed.
 Print Assumptions C11_total_smtp_other_cause.
 
+(* a broken connection is a transient failure of the request being worked on, whatever error
+   replies (500 to EHLO, 5xx for another recipient, a rejected earlier request) were seen before:
+   if the connection run ends with BadReply/ConnectionLost, a timeout or a socket error while the
+   current request has no result yet, every recipient of that request is reported transient *)
+Theorem C11_hangup_transient : forall sc cfg msgs e s i,
+  msgs <> [] ->
+  (r_connect cfg ;;; r_handshake sc cfg ;;; run_loop sc cfg msgs 0) st0 = (inr e, s) ->
+  (e = ASmtp \/ e = ATimeout \/ e = ASock) ->
+  lookup_res (results s) (cur s) = None ->
+  smtp_final sc cfg msgs (cur s) i = FTransient.
+Proof. exact smtp_hangup_transient. Qed.
+Print Assumptions C11_hangup_transient.
+
 (* RelayPool.attempt over successive connections returns the result of one of them *)
 Theorem C11_attempt_conns : forall cfg scs msg r,
   attempt_conns cfg scs msg = Some r ->
